@@ -45,7 +45,8 @@ REQUIRED_PROBES = ['refund_at_deadline', 'refund_deadline_minus_1', 'claim_after
                    'default_timestamp', 'crafted_witness', 'witness_with_code', 'witness_ending_in_return',
                    'lock_form_bytes', 'lock_form_resrc', 'lock_form_redec', 'explicit_limits',
                    'clock_read_failed', 'malleated_signature',
-                   'transaction_changed_after_signing'] + \
+                   'transaction_changed_after_signing',
+                   'signed_the_digest_of_a_long_transaction'] + \
     ['lock_wrapped_' + x for x in sorted(set(WRAPS) - {'none'})]
 
 LKINDS = ['htlc_sha', 'htlc_shake', 'htlc2_sha', 'htlc2_shake', 'ptlc', 'ptlc_tweak']
@@ -141,6 +142,7 @@ def gen_step(rng, cell, oid, out, clocks, vname, thr, fault_free):
             'form': rng.choice(LOCK_FORMS), 'limits': rng.below(len(LIMITS)),
             'wrap': rng.choice(WRAPS), 'style': rng.choice(ARG_STYLES),
             'tx_change': gen_tx_change(rng) if rng.chance(1, 10) else None,
+            'prehash': rng.choice(['sha512', 'sha256']) if rng.chance(1, 25) else None,
             'twice': rng.choice(['', '', '', 'build', 'validate', 'build+validate'])}
     if not fault_free:
         r = rng.below(10)
@@ -259,11 +261,26 @@ def build_lock(out, keys):
     return T.make_ptlc_lock(recv, refund, tweak_point=base_mult(bytes.fromhex(out['tweak'])), **kw)
 
 
+LONG_TX = 1100      # bytes: more than one stack item can hold
+
+
+def long_tx(step):
+    """(what the validator sees, what was signed): a transaction too long to be a stack
+    item, and a 64- or 32-byte "transaction" that is its digest -- the spender signed the
+    latter; nothing may make the signature count for the former"""
+    import hashlib
+    m = hashlib.shake_256(b'long tx %d' % step['at_us']).digest(LONG_TX)
+    h = hashlib.sha512(m).digest() if step['prehash'] == 'sha512' else hashlib.sha256(m).digest()
+    return {'sigfield1': m}, {'sigfield1': h}
+
+
 def build_witness(step, out, keys, preimage):
     """Calls the real witness builder; returns the Script."""
     seed = as_key_arg('prv', keys[step['actor']][0], step.get('keys', 'bytes'))
     style = step.get('style', 'plain')
     sf = styled_sigfields({k: bytes.fromhex(v) for k, v in out['sigfields'].items()}, style)
+    if step.get('prehash'):
+        sf = long_tx(step)[1]
     wk = step['wkind']
     pfx = step.get('prefix', '')
     flag = styled_flags(step['flag'], style)
@@ -473,6 +490,10 @@ def execute(plan, run):
             extra = [b'\xff'] if step['suffix'].startswith('true') else \
                 [b'\x00'] if step['suffix'].startswith('false') else []
             items = items + extra
+        if step.get('prehash'):
+            # the validator's transaction is the long one whose digest was signed
+            run.probe('signed_the_digest_of_a_long_transaction')
+            sf = long_tx(step)[0]
         if step.get('tx_change'):
             # the validator's transaction differs from the one that was signed
             run.probe('transaction_changed_after_signing')
@@ -564,7 +585,7 @@ def execute(plan, run):
             lk.startswith('ptlc') and step['wkind'] == 'ptlc_refund')
         tiny = lk.endswith('shake') and out['hash_size'] < 16
         if native and not cor and not tiny and not step.get('suffix') and not clock_failed and \
-                not step.get('tx_change'):
+                not step.get('tx_change') and not step.get('prehash'):
             who = step['actor']
             flag_ok = (int(step['flag'], 16) & ~int(out['allowed'], 16) & 0xff) == 0
             if lk.startswith('htlc'):
